@@ -51,6 +51,12 @@ SING = [
     ("(x + 47.13)/(1 - exp(-0.1*(x + 47.13)))", [("x", "-47.13", "10")]),
     ("0.32*(x + 47.13)/(1 - exp(-0.1*(x + 47.13)))", [("x", "-47.13", "3.2")]),
     ("sin(x - 0.25)/(x - 0.25)", [("x", "0.25", "1")]),
+    # removable singularities whose limit is exactly zero (a falsy sympy value)
+    ("x*x/(exp(x) - 1)", [("x", "0", "0")]),
+    ("(x - 2)*(x - 2)/(exp(x - 2) - 1)", [("x", "2", "0")]),
+    ("y*(1 - cos(x))/x", [("x", "0", "0")]),
+    ("tau*(x + 1.5)*(x + 1.5)/(1 - exp(-(x + 1.5)/4))", [("x", "-1.5", "0")]),
+    ("y*x*x/(exp(x) - 1)", [("x", "0", "0")]),
     # a factor that appears verbatim in numerator and denominator
     ("(x - a)/(x - a)", [("x", "a", "1")]),
     ("(x + 40)*(x - 10)/(x + 40)", [("x", "-40", "-50")]),
